@@ -106,6 +106,11 @@ def observe(cmd, args):
         if v.local is None and v.public != str(v): return "public differs from str() without a local label"
         for z in (True, False):
             if canonicalize_version(str(v), strip_trailing_zero=z) != canonicalize_version(args[0], strip_trailing_zero=z): return "canonicalize_version differs between the text and str(v)"
+        # theorem C02_prerelease_is_below_its_final: is_prerelease <=> v sorts strictly below v without its pre-release and dev segments
+        fin = parse(("%d!" % v.epoch) + ".".join(map(str, v.release)) + ("" if v.post is None else ".post%d" % v.post) + ("" if v.local is None else "+" + v.local))
+        if fin is None: return "the version without pre/dev segments does not parse"
+        if v.is_prerelease != (v < fin) or (not v.is_prerelease and v != fin): return "is_prerelease disagrees with the order: %r against %r" % (str(v), str(fin))
+        if v.is_postrelease != (v.post is not None) or v.is_devrelease != (v.dev is not None): return "is_postrelease / is_devrelease disagree with the components"
         return "ok"
     if cmd == "law.v.rank":
         # independent oracle: args = [a, b, rel] with rel in "<=>" computed by the harness from the structured versions (gen.rank)
